@@ -5,6 +5,7 @@ import Driver.Sym
 import Driver.Conv
 import Driver.CompileDrv
 import Driver.SemDrv
+import Driver.Pos
 open Driver
 
 /-- a trailing field starting with '#' carries human-readable context and is ignored -/
@@ -24,6 +25,7 @@ def dispatch (line : String) : String :=
   | "conv" :: args => handleConv args
   | "compile" :: args => handleCompile args
   | "sem" :: args => handleSem args
+  | "pos" :: args => handlePos args
   | _ => "bad-op"
 
 partial def loop (h : IO.FS.Stream) (out : IO.FS.Stream) : IO Unit := do
